@@ -893,6 +893,119 @@ def extreme_and_stamp_twins(chk, work, base):
                mismatches=bad, branches=dict(branches, refused=refused))
 
 
+def empty_record_pairs(chk, work, base):
+    """Rural files in which a record OUTSIDE the window has been emptied (the line is there, its content is gone):
+    an empty line, a line of commas, a record whose cells are all blank - before the window (far, and the row just
+    before it), after it, and empty lines at the end of the file. Rows are addressed by position, so the emptied
+    line keeps its place and the window is the same rows: the forcing lists cut by generate(), the hourly records and
+    the written rows of the window must be bit-identical to those of the untouched file. (An emptied record INSIDE
+    the window is not rural data any more: the run must be refused, not slid - if it is accepted its hours before the
+    emptied one must still equal the reference.)"""
+    import x1_util as X1
+    rng = chk.rng
+    thorough = chk.tier == 'thorough'
+    total, bad, br = 0, [0], {}
+    FL = ('infra', 'wind', 'uDir', 'pres', 'temp', 'rHum', 'dif', 'dir')
+    for rep in range(1 if not thorough else 3):
+        month, day = rng.choice([(1, 10), (3, 30), (6, 29), (9, 14), (12, 27), (2, 1)])
+        attrs = dict(month=month, day=day, nday=1, dtsim=300)
+        julian0 = [0, 31, 59, 90, 120, 151, 181, 212, 243, 273, 304, 334][month - 1] + day - 1
+        first, nh = 8 + 24 * julian0, 24
+        ref_path = os.path.join(work, 'er_ref.epw')
+        X1.empty_record_file(base, ref_path, [], 'empty line')
+        ref, err = try_run(ref_path, work, 'era.epw', **attrs)
+        if ref is None:
+            chk.notes.append('emptied-record reference run %s skipped: %s' % (attrs, err))
+            continue
+        fref = {f: list(getattr(ref[0].forcIP, f)) for f in FL}
+        kinds = [k for k, _ in X1.EMPTY_KINDS]
+        # (where, positions, trailing)
+        members = [('before the window', [rng.randrange(8, first - 1)], 0),
+                   ('the row just before the window', [first - 1], 0),
+                   ('two records before the window', sorted(rng.sample(range(8, first), 2)), 0),
+                   ('the row just after the window', [first + nh], 0),
+                   ('after the window', [rng.randrange(first + nh, len(base))], 0),
+                   ('empty lines at the end of the file', [], rng.choice([1, 2]))]
+        full = rng.randrange(0, 3)               # this member gets the full generate;simulate;write_epw pair
+        for i, (where, pos, trailing) in enumerate(members):
+            kind = 'empty line' if (i == full or trailing) else rng.choice(kinds)
+            if i != full and rng.random() < 0.5:
+                kind = 'empty line'
+            path = os.path.join(work, 'er_%d.epw' % i)
+            X1.empty_record_file(base, path, pos, kind, trailing)
+            case = {'kind': 'emptied-record', 'where': where, 'emptied_rows(file line index, 0-based)': pos,
+                    'emptied_as': kind, 'trailing_empty_lines': trailing, 'params': attrs, 'first_row': first,
+                    'how': 'x1_util.empty_record_file(load_epw(Singapore), path, rows, kind, trailing)'}
+            total += 1
+            br['%s / %s' % (where.split(' (')[0], kind)] = br.get('%s / %s' % (where, kind), 0) + 1
+            if i == full:
+                got, err = try_run(path, work, 'erb.epw', **attrs)
+                if got is None:
+                    bad[0] += 1
+                    chk.violation('impl-violation', 'a rural file with an emptied record outside the window is not simulated',
+                                  case=case, observed=err, expected='the same urban hours as with the untouched file')
+                    continue
+                cmp_runs(chk, 'emptied record %s (%s): same rows in the window' % (where, kind), case, ref, got,
+                         first, nh, bad)
+                continue
+            try:
+                m = U.new_model(epw=path, outdir=work, outname='erg.epw', **attrs)
+                with core.quiet():
+                    m.generate()
+            except Exception as e:  # noqa: BLE001
+                bad[0] += 1
+                if bad[0] <= 3:
+                    chk.violation('impl-violation', 'generate() fails on a rural file with an emptied record outside the window',
+                                  case=case, observed='%s: %s' % (type(e).__name__, str(e)[:120]),
+                                  expected='the window of the untouched file')
+                continue
+            got = {f: list(getattr(m.forcIP, f)) for f in FL}
+            st, rt = m.simTime, ref[0].simTime
+            d = next(((f, n) for f in FL for n in range(max(len(fref[f]), len(got[f])))
+                      if n >= len(got[f]) or n >= len(fref[f]) or got[f][n] != fref[f][n]), None)
+            if d is not None or (st.timeInitial, st.timeFinal) != (rt.timeInitial, rt.timeFinal):
+                bad[0] += 1
+                if bad[0] <= 3:
+                    f, n = d if d else ('temp', 0)
+                    chk.violation('impl-violation', 'causality: the forcing of window hour %d depends on an emptied record %s'
+                                  % (n, where), case=case,
+                                  observed='forcIP.%s[%d] = %r with the emptied record, %r without; window rows %s vs %s' % (
+                                      f, n, got[f][n] if n < len(got[f]) else None, fref[f][n] if n < len(fref[f]) else None,
+                                      [st.timeInitial, st.timeFinal], [rt.timeInitial, rt.timeFinal]),
+                                  expected='forcing lists of the window bit-identical (the emptied record lies outside it)')
+        if thorough or rep == 0:
+            # an emptied record INSIDE the window: refused, or causal up to it
+            h = rng.randrange(2, nh - 1)
+            path = os.path.join(work, 'er_in.epw')
+            X1.empty_record_file(base, path, [first + h], 'empty line')
+            total += 1
+            br['inside the window'] = br.get('inside the window', 0) + 1
+            try:
+                m = U.new_model(epw=path, outdir=work, outname='eri.epw', **attrs)
+                with core.quiet():
+                    m.generate()
+                got = {f: list(getattr(m.forcIP, f)) for f in FL}
+                if any(got[f][:h] != fref[f][:h] for f in FL):
+                    bad[0] += 1
+                    chk.violation('impl-violation', 'causality: an emptied record at window hour %d changes the forcing of earlier hours' % h,
+                                  case={'kind': 'emptied-record', 'where': 'inside the window', 'hour': h, 'params': attrs},
+                                  observed='forcIP.temp[:%d] = %r' % (h, got['temp'][:h]),
+                                  expected='%r (or a refused run)' % (fref['temp'][:h],))
+                else:
+                    br['inside the window: accepted, earlier hours unchanged'] = 1
+            except Exception:  # noqa: BLE001 - refused: no urban value, nothing to judge
+                br['inside the window: refused'] = br.get('inside the window: refused', 0) + 1
+    chk.direct('paired-runs(rural files with an emptied record outside the window)', total, total,
+               'copies of the Singapore file in which a record outside the window is emptied - an empty line, a line of '
+               'commas, all cells blank, a single blank - far before the window, the row just before it, two records before '
+               'it, the row just after it, far after it, and empty lines at the end of the file; start dates from 10 January '
+               'to 27 December, 1 day, dt 300: the forcing lists and window bounds after generate() must equal those of the '
+               'untouched file (rows are addressed by position: the emptied line keeps its place), one member per round as '
+               'a full generate;simulate;write_epw pair (hourly records and written columns 6,7,8,21 bit-identical); an '
+               'emptied record INSIDE the window must be refused or leave the earlier hours unchanged',
+               mismatches=bad[0], branches=br)
+
+
 def run(chk):
     from props import step
     chk.proof(MODULE, THEOREMS + step.THEOREMS, extra_modules=[step.MODULE])
@@ -1048,6 +1161,7 @@ def run(chk):
     circumstance_pairs(chk, work, base)
     handover_twins(chk, work, base)
     extreme_and_stamp_twins(chk, work, base)
+    empty_record_pairs(chk, work, base)
     # composition C: the physics of one step as one Lean function, tied exactly to the real loop body
     step.run_step(chk)
     chk.assumptions.append('the theorems hold for ANY physics that is a function of (state, current forcing row, '
